@@ -138,6 +138,12 @@ class Checker:
         try:
             return fn(*a, **k)
         except AnalysisError as e:
+            if self._remap is not None:
+                # a rule shared from another property that cannot decide here: that property's own check answers exit 2 with this
+                # reason; the borrowing property keeps its own verdict (the undecided shared rule is listed in the evidence)
+                self.note(f"shared rule {self._remap[0]}* undecided here: {str(e)[:200]}")
+                self.extra.setdefault("shared_rules_undecided", []).append(f"{self._remap[0]}: {str(e)[:300]}")
+                return None
             self.error(str(e))
             return None
         except Exception as e:       # a defect of the machinery: undecided (exit 2), never a verdict; the other rules still run
